@@ -18,16 +18,25 @@
    mapped and is undefined behaviour otherwise ("died"); dlsym(NULL) is RTLD_DEFAULT: it finds
    the symbol iff the image is mapped with RTLD_GLOBAL.
 
+   A lib object is opened either by path (ffi.dlopen("x.so"): cffi calls dlopen() and owns that
+   reference: dl_auto_close / l_auto_close = 1) or from an existing handle (ffi.dlopen(h) with a
+   'void *' cdata h that the program obtained from dlopen() itself: the lib borrows the program's
+   reference, auto_close = 0).  ffi.dlclose(lib) calls dlclose() on the handle in both cases (the
+   program's reference is consumed for a borrowed handle); only the deallocators look at auto_close.
+
    Variant selects deliberately broken variants that TLC must reject (non-vacuity):
      "nonull"   the close does not reset the handle field to NULL
      "nocheck"  dl_check_closed / the NULL test of cdlopen_fetch is dropped
      "noclear"  the close does not clear library.__dict__ / l_dict
+     "noclose-when-not-owner"  the close is a no-op for a lib opened from an existing handle
    The ghost variables ls, fb, last of DlLibIdeal are updated with the ideal's own effects,
    so that "the model refines the ideal" is the property ISpec. *)
 EXTENDS DlLibIdeal, TLC
 CONSTANTS Mode, Variant, Flags
 VARIABLES hnd,    \* hnd[l]   \in {"none", "H", "null"}: dl_handle / l_libhandle
           share,  \* share[l] = l owns one reference of the loader's count
+          own,    \* own[l]   = dl_auto_close / l_auto_close: the lib was opened by path
+          raw,    \* number of references the program itself holds (raw dlopen() handles)
           glob,   \* the mapped image is in the global scope (some dlopen used RTLD_GLOBAL)
           dict,   \* dict[l]  = names cached in library.__dict__ / l_dict
           props,  \* props[l] = (inline) variables with a property installed on FFILibrary
@@ -36,11 +45,11 @@ VARIABLES hnd,    \* hnd[l]   \in {"none", "H", "null"}: dl_handle / l_libhandle
           dead,   \* the process was killed
           det     \* details of the last outcome: exception class, value, loader calls
 
-mvars == <<hnd, share, glob, dict, props, addrs, mem, dead, det>>
-vars == <<ls, fb, last, hnd, share, glob, dict, props, addrs, mem, dead, det>>
+mvars == <<hnd, share, own, raw, glob, dict, props, addrs, mem, dead, det>>
+vars == <<ls, fb, last, hnd, share, own, raw, glob, dict, props, addrs, mem, dead, det>>
 
 \* the exhaustive configurations identify states that differ only in the last outcome
-View == <<ls, fb, hnd, share, glob, dict, props, addrs, mem, dead>>
+View == <<ls, fb, hnd, share, own, raw, glob, dict, props, addrs, mem, dead>>
 
 Names == Funcs \cup Vars
 InitMem == [v \in Vars |-> 0]
@@ -50,11 +59,12 @@ RDied(sym, cls) == R("died", "", 0, sym, cls)
 
 Init == /\ IInit
         /\ hnd = [l \in Libs |-> "none"] /\ share = [l \in Libs |-> FALSE] /\ glob = FALSE
+        /\ own = [l \in Libs |-> FALSE] /\ raw = 0
         /\ dict = [l \in Libs |-> {}] /\ props = [l \in Libs |-> {}] /\ addrs = [l \in Libs |-> {}]
         /\ mem = InitMem /\ dead = FALSE /\ det = R("ok", "", 0, 0, 0)
 
 \* ------------------------------------------------------------------ the loader
-Refcnt == Cardinality({l \in Libs : share[l]})
+Refcnt == Cardinality({l \in Libs : share[l]}) + raw
 Loaded == Refcnt > 0
 Dlsym(l) == CASE hnd[l] = "H" /\ share[l]  -> "found"
               [] hnd[l] = "H" /\ ~share[l] -> IF Loaded THEN "found" ELSE "ub"
@@ -76,30 +86,45 @@ CallVal(f) == IF f = "f1" THEN 11 ELSE 10 + mem["v1"]
 Open(l, fl) ==
     /\ ls[l] = "unopened" /\ ~dead
     /\ hnd' = [hnd EXCEPT ![l] = "H"] /\ share' = [share EXCEPT ![l] = TRUE]
+    /\ own' = [own EXCEPT ![l] = TRUE]
     /\ glob' = (glob \/ fl = "global")
     /\ Fin("open", l, "", ROk(0, 0), OpenE(l, "ok"))
-    /\ UNCHANGED <<dict, props, addrs, mem>>
+    /\ UNCHANGED <<raw, dict, props, addrs, mem>>
+
+\* h = dlopen(path, fl) by the program itself, then lib = ffi.dlopen(h): b_do_dlopen takes the
+\* 'void *' as the handle, auto_close = 0
+OpenH(l, fl) ==
+    /\ ls[l] = "unopened" /\ ~dead
+    /\ raw' = raw + 1
+    /\ hnd' = [hnd EXCEPT ![l] = "H"]
+    /\ glob' = (glob \/ fl = "global")
+    /\ Fin("open", l, "", ROk(0, 0), OpenE(l, "ok"))
+    /\ UNCHANGED <<share, own, dict, props, addrs, mem>>
 
 \* a function object fetched earlier and kept by the caller is called while lib is open
 Call(l, f) ==
     /\ ls[l] = "open" /\ f \in fb[l] /\ ~dead
     /\ Fin("call", l, f, ROk(CallVal(f), 0), CallE(l, f, "ok"))
-    /\ UNCHANGED <<hnd, share, glob, dict, props, addrs, mem>>
+    /\ UNCHANGED <<own, raw, hnd, share, glob, dict, props, addrs, mem>>
 
 \* dlclose() part shared by dl_close_lib and ffi_dlclose (cdlopen_close)
 CloseCommon(l) ==
-    LET doit == hnd[l] = "H"                      \* "if (handle != NULL)"
+    LET doit == hnd[l] = "H" /\ (Variant = "noclose-when-not-owner" => own[l])      \* "if (handle != NULL)"
         ub   == doit /\ ~share[l] /\ ~Loaded      \* dlclose() of an unmapped handle
-        victim == IF share[l] THEN l ELSE CHOOSE x \in Libs : share[x]   \* whose reference is dropped
-        share2 == IF doit /\ ~ub THEN [share EXCEPT ![victim] = FALSE] ELSE share
+        \* whose reference dlclose() drops: the lib's own one, else one of the program's (a borrowed
+        \* handle), else (stale handle) somebody else's
+        share2 == IF doit /\ ~ub /\ (share[l] \/ raw = 0)
+                  THEN [share EXCEPT ![IF share[l] THEN l ELSE CHOOSE x \in Libs : share[x]] = FALSE]
+                  ELSE share
+        raw2 == IF doit /\ ~ub /\ ~share[l] /\ raw > 0 THEN raw - 1 ELSE raw
         r == IF ub THEN RDied(0, 1) ELSE R("ok", "", 0, 0, IF doit THEN 1 ELSE 0)
-    IN /\ share' = share2
-       /\ hnd' = IF Variant = "nonull" THEN hnd ELSE [hnd EXCEPT ![l] = "null"]
+    IN /\ share' = share2 /\ raw' = raw2
+       /\ hnd' = IF Variant = "nonull" \/ ~doit THEN hnd ELSE [hnd EXCEPT ![l] = "null"]
        /\ dict' = IF Variant = "noclear" THEN dict ELSE [dict EXCEPT ![l] = {}]
-       /\ LET unmapped == \A x \in Libs : ~share2[x]
+       /\ LET unmapped == raw2 = 0 /\ \A x \in Libs : ~share2[x]
           IN mem' = (IF unmapped THEN InitMem ELSE mem) /\ glob' = (IF unmapped THEN FALSE ELSE glob)
        /\ Fin("close", l, "", r, CloseE(l, r.out))
-       /\ UNCHANGED <<props, addrs>>
+       /\ UNCHANGED <<own, props, addrs>>
 Close(l) == Opened(l) /\ ~dead /\ CloseCommon(l)
 
 \* ------------------------------------------------------------------ in-line (api.py + dl_*)
@@ -108,13 +133,13 @@ IGetFunc(l, f, ev) ==      \* lib.f  /  ffi.addressof(lib, "f"):  library.__dict
     /\ LET r == IF f \in dict[l] THEN ROk(0, 0) ELSE Lookup(l, 0, "AttributeError")
        IN /\ dict' = IF r.out = "ok" THEN [dict EXCEPT ![l] = @ \cup {f}] ELSE dict
           /\ Fin(ev, l, f, r, IF ev = "getfunc" THEN GetFuncE(l, f, r.out) ELSE AddressOfE(l, f, r.out))
-    /\ UNCHANGED <<hnd, share, glob, props, addrs, mem>>
+    /\ UNCHANGED <<own, raw, hnd, share, glob, props, addrs, mem>>
 
 IReadVar(l, v) ==          \* lib.v: accessor_variable installs the property, then dl_read_variable
     /\ Mode = "inline" /\ Opened(l) /\ ~dead
     /\ props' = [props EXCEPT ![l] = @ \cup {v}]
     /\ Fin("readvar", l, v, Lookup(l, mem[v], "KeyError"), ReadVarE(l, v, "ok"))
-    /\ UNCHANGED <<hnd, share, glob, dict, addrs, mem>>
+    /\ UNCHANGED <<own, raw, hnd, share, glob, dict, addrs, mem>>
 
 IWriteVar(l, v, x) ==      \* lib.v = x: FFILibrary.__setattr__, then dl_write_variable
     /\ Mode = "inline" /\ Opened(l) /\ ~dead
@@ -122,7 +147,7 @@ IWriteVar(l, v, x) ==      \* lib.v = x: FFILibrary.__setattr__, then dl_write_v
     /\ LET r == Lookup(l, x, "KeyError")
        IN /\ mem' = IF r.out = "ok" THEN [mem EXCEPT ![v] = x] ELSE mem
           /\ Fin("writevar", l, v, r, WriteVarE(l, v, r.out))
-    /\ UNCHANGED <<hnd, share, glob, dict, addrs>>
+    /\ UNCHANGED <<own, raw, hnd, share, glob, dict, addrs>>
 
 IAddressOfVar(l, v) ==     \* ffi.addressof(lib, "v"): FFILibrary.__addressof__ -> addressof_var
     /\ Mode = "inline" /\ Opened(l) /\ ~dead
@@ -130,7 +155,7 @@ IAddressOfVar(l, v) ==     \* ffi.addressof(lib, "v"): FFILibrary.__addressof__ 
     /\ LET r == IF v \in addrs[l] THEN ROk(0, 0) ELSE Lookup(l, 0, "AttributeError")
        IN /\ addrs' = IF r.out = "ok" THEN [addrs EXCEPT ![l] = @ \cup {v}] ELSE addrs
           /\ Fin("addressof", l, v, r, AddressOfE(l, v, r.out))
-    /\ UNCHANGED <<hnd, share, glob, dict, mem>>
+    /\ UNCHANGED <<own, raw, hnd, share, glob, dict, mem>>
 
 \* ------------------------------------------------------------------ out-of-line (cdlopen.c + lib_obj.c)
 \* LIB_GET_OR_CACHE_ADDR: l_dict hit, or lib_build_and_cache_attr -> cdlopen_fetch
@@ -144,7 +169,7 @@ OGet(l, n, ev) ==          \* lib.f / ffi.addressof(lib, n)
     /\ LET r == OFetch(l, n)
        IN /\ dict' = IF r.out = "ok" THEN [dict EXCEPT ![l] = @ \cup {n}] ELSE dict
           /\ Fin(ev, l, n, r, IF ev = "getfunc" THEN GetFuncE(l, n, r.out) ELSE AddressOfE(l, n, r.out))
-    /\ UNCHANGED <<hnd, share, glob, props, addrs, mem>>
+    /\ UNCHANGED <<own, raw, hnd, share, glob, props, addrs, mem>>
 
 OReadVar(l, v) ==          \* lib_getattr -> read_global_var
     /\ Mode = "outofline" /\ Opened(l) /\ ~dead
@@ -152,7 +177,7 @@ OReadVar(l, v) ==          \* lib_getattr -> read_global_var
            r  == Deref(l, r0, mem[v])
        IN /\ dict' = IF r0.out = "ok" THEN [dict EXCEPT ![l] = @ \cup {v}] ELSE dict
           /\ Fin("readvar", l, v, r, ReadVarE(l, v, r.out))
-    /\ UNCHANGED <<hnd, share, glob, props, addrs, mem>>
+    /\ UNCHANGED <<own, raw, hnd, share, glob, props, addrs, mem>>
 
 OWriteVar(l, v, x) ==      \* lib_setattr -> write_global_var
     /\ Mode = "outofline" /\ Opened(l) /\ ~dead
@@ -161,11 +186,12 @@ OWriteVar(l, v, x) ==      \* lib_setattr -> write_global_var
        IN /\ dict' = IF r0.out = "ok" THEN [dict EXCEPT ![l] = @ \cup {v}] ELSE dict
           /\ mem' = IF r.out = "ok" THEN [mem EXCEPT ![v] = x] ELSE mem
           /\ Fin("writevar", l, v, r, WriteVarE(l, v, r.out))
-    /\ UNCHANGED <<hnd, share, glob, props, addrs>>
+    /\ UNCHANGED <<own, raw, hnd, share, glob, props, addrs>>
 
 \* a flat disjunction of named actions (TLC labels the transitions of its dumps with them)
 Next == \E l \in Libs :
           \/ \E fl \in Flags : Open(l, fl)
+          \/ \E fl \in Flags : OpenH(l, fl)
           \/ Close(l)
           \/ \E f \in Funcs : Call(l, f)
           \/ \E f \in Funcs : IGetFunc(l, f, "getfunc")
